@@ -162,6 +162,27 @@ func docdump(format string, doc []byte) string {
 	return textdump(doc)
 }
 
+// hasYearZero reports whether the value holds a time.Time whose year (in its own location) is 0.
+func hasYearZero(v *gen.Val) bool {
+	if v == nil {
+		return false
+	}
+	if v.T != nil && v.T.Time().Year() == 0 {
+		return true
+	}
+	for _, e := range v.Elems {
+		if hasYearZero(e) {
+			return true
+		}
+	}
+	for _, e := range v.Keys {
+		if hasYearZero(e) {
+			return true
+		}
+	}
+	return hasYearZero(v.P)
+}
+
 func checkRoundTrip(c *ValCase, ctx *Ctx, cfg *configuration.Configuration) error {
 	ctx.NonTrivial(valFeatures(ctx, c.Type, c.Val))
 	ctx.Label("format:" + c.Format)
@@ -169,6 +190,16 @@ func checkRoundTrip(c *ValCase, ctx *Ctx, cfg *configuration.Configuration) erro
 	doc, err, bad := marshalDoc(ctx, c.Format, value.Interface(), cfg)
 	if bad != nil {
 		return bad
+	}
+	if hasYearZero(c.Val) {
+		// Go's year 0 (1 BC) has no counterpart in the format: the only acceptable outcome is an error from
+		// the marshaler (the generators never draw such a time; this branch serves the stored regression input)
+		if err == nil {
+			if _, uerr, _ := unmarshalDoc(ctx, c.Format, doc, reflect.Zero(c.Type.Realize()).Interface(), cfg); uerr != nil {
+				return fmt.Errorf("a time in year 0 was marshaled without an error into a document that does not unmarshal: %v\ndoc=%s", uerr, docdump(c.Format, doc))
+			}
+		}
+		return nil
 	}
 	if err != nil {
 		return fmt.Errorf("marshal of a supported value failed: %v\ntype=%v", err, c.Type)
